@@ -52,6 +52,10 @@ def run(ctx):
                 pool = rng.sample(range(1, hi), len(outlets))
             else:
                 pool = [rng.randint(1, 6) for _ in outlets]
+            if dt == np.int64 and rng.random() < 0.6:
+                # "every id vector without zeros": negative ids are legal for signed dtypes
+                pool = [(-x if rng.random() < 0.5 else x) for x in pool]
+                ctx.count("negative-ids")
             ids_np = np.array(pool, dtype=dt)
             if mode == "idxs":
                 out = flw.basins(idxs=np.array(outlets, dtype=np.int64), ids=ids_np)
@@ -65,7 +69,7 @@ def run(ctx):
             if len(set(pool)) == len(pool) and len(set(outlets)) == len(outlets):
                 lbs, idxs_out = flw.basin_outlets(out)
                 _add_outlets(ctx, {"op": "basin_outlets", **base, "regions": ints(out)}, ds, seq,
-                             ints(out), lbs, idxs_out, n, expect=sorted(zip(pool, outlets)), nontriv=nontriv)
+                             ints(out), lbs, idxs_out, n, expect=sorted((l, o) for l, o in zip(pool, outlets) if l > 0), nontriv=nontriv)
         else:
             outlets = [rng.choice(valid) for _ in range(2)]
             bad = rng.choice(["zero", "size"])
@@ -79,6 +83,32 @@ def run(ctx):
             if got != "ValueError":
                 ctx.fail({"op": "basins", **base, "outlets": outlets, "ids": ints(ids_np)}, "spec",
                          f"ids with {bad} must raise ValueError, got {got}")
+        # default basins on an object parsed from a D8 raster with edge pits (cells whose code points off the
+        # raster or at nodata): from_array sets idxs_outlet (explicit pit codes only) next to idxs_pit
+        if fam == "dem" and rng.random() < 0.5:
+            import pyflwdir
+            from catalogue import ds_to_d8
+            codes = ds_to_d8(ds, shape)
+            nrow, ncol = shape
+            drdc = {1: (0, 1), 2: (1, 1), 4: (1, 0), 8: (1, -1), 16: (0, -1), 32: (-1, -1), 64: (-1, 0), 128: (-1, 1)}
+            for i in range(n):
+                if codes[i] == 0 and rng.random() < 0.6:   # turn pits into edge pits where geometry allows
+                    r, c = divmod(i, ncol)
+                    for code, (dr, dc) in drdc.items():
+                        r1, c1 = r + dr, c + dc
+                        if not (0 <= r1 < nrow and 0 <= c1 < ncol) or ds[r1 * ncol + c1] == n:
+                            codes[i] = code
+                            ctx.count("edge-pit")
+                            break
+            try:
+                flw2 = pyflwdir.from_array(np.array(codes, dtype=np.uint8).reshape(shape), ftype="d8")
+            except ValueError:
+                flw2 = None
+            if flw2 is not None:
+                out2 = flw2.basins()
+                _add_basins(ctx, {"op": "basins", **base, "d8": codes, "outlets": None, "ids": None, "via": "from_array"},
+                            ds, canon_idx(flw2.idxs_seq, n), canon_idx(flw2.idxs_pit, n),
+                            list(range(1, len(flw2.idxs_pit) + 1)), out2, None, nontriv)
         # arbitrary label maps for the outlet query
         if rng.random() < 0.3:
             regions = [rng.randint(0, 3) if ds[i] != n else 0 for i in range(n)]
